@@ -1,6 +1,6 @@
 (* C14 on the tables of the compiled crate (EventDecoder with a recording layout) *)
 From Coq Require Import NArith Bool List String.
-From PK Require Import Base.Outcome Gen.Types Impl Spec.Event Ext.Event ExtI.Ev Check.Ev.
+From PK Require Import Base.Outcome Gen.Types Impl Spec.Mods Ext.Event ExtI.Ev Check.EvImpl.
 Import ListNotations.
 
 Lemma C14_ext_res : cex_res ext_ev = []. Proof. vm_compute. reflexivity. Qed.
